@@ -306,6 +306,16 @@ def convert_data_type(onnx_dtype: int) -> int:
             raise ConversionError(f"Unsupported data type {onnx_dtype}")
 
 
+NON_STANDARD_DOMAIN_OPS = {
+    # Same as the standard `Gelu` with `approximate="none"`.
+    ("com.microsoft", "Gelu"),
+}
+"""
+Operators from non-standard domains which can be converted as if they were
+the standard ONNX operator with the same name.
+"""
+
+
 def op_node_from_onnx_operator(
     onnx_op: onnx.OperatorProto,
     node_index_from_name: dict[str, int],
@@ -361,6 +371,14 @@ def op_node_from_onnx_operator(
     # Operator type name in RTen models. By default assume this is the same as
     # the ONNX type.
     op_type = onnx_op.op_type
+
+    # Operators from non-standard domains (eg. `com.microsoft`) are distinct
+    # operators, even if a standard operator with the same name exists (eg.
+    # `com.microsoft.RotaryEmbedding` takes different inputs than the standard
+    # `RotaryEmbedding`). Only convert those known to be interchangeable.
+    if onnx_op.domain not in ("", "ai.onnx"):
+        if (onnx_op.domain, op_type) not in NON_STANDARD_DOMAIN_OPS:
+            raise UnsupportedOperatorError(f"{onnx_op.domain}.{op_type}")
 
     # Check / convert operator attributes and operator name, if different than
     # ONNX.
